@@ -165,6 +165,7 @@ func c12Rule() string {
 }
 
 func runC12(t *testing.T, onDisk bool) {
+	defer vt.Watch("TestC12Lockstep", 180*time.Second)()
 	rec := vt.For("C12")
 	rec.Rule(c12Rule())
 	rapid.Check(t, func(rt *rapid.T) {
